@@ -341,7 +341,7 @@ impl Ctx {
                 .take(120)
                 .collect();
             let path = replay_dir.join(format!("{fname}.json"));
-            let body = json!({"property": self.id, "key": key, "what": v.what, "case": v.case});
+            let body = json!({"property": self.id, "key": key, "what": v.what, "case": v.case, "part": std::env::var("VERIF_PART").ok()});
             let _ = std::fs::write(&path, serde_json::to_string_pretty(&body).unwrap());
             lines.push(format!("VIOLATION property={} replay={} key={} :: {}", self.id, path.display(), key, truncate(&v.what, 400)));
         }
@@ -360,6 +360,37 @@ impl Ctx {
             let evdir = self.root.join("evidence");
             let _ = std::fs::create_dir_all(&evdir);
             let p = evdir.join(format!("{}.json", self.id));
+            // A property served by two binaries (e.g. static half + run-time half): the second run merges its
+            // coverage into the evidence written by the first (VERIF_EVIDENCE_MERGE=1, VERIF_PART=<name>).
+            let ev = match (std::env::var("VERIF_EVIDENCE_MERGE").ok().as_deref(), std::fs::read_to_string(&p).ok().and_then(|t| serde_json::from_str::<Value>(&t).ok())) {
+                (Some("1"), Some(mut first)) => {
+                    let part = std::env::var("VERIF_PART").unwrap_or_else(|_| "part2".to_string());
+                    let add = |a: &Value, b: &Value| json!(a.as_u64().unwrap_or(0) + b.as_u64().unwrap_or(0));
+                    let second_cov = ev["coverage"].clone();
+                    if let Some(c) = first.get_mut("coverage").and_then(|c| c.as_object_mut()) {
+                        for k in ["evaluations", "distinct_nontrivial", "states", "transitions", "traces_validated_against_impl"] {
+                            if c.contains_key(k) && second_cov.get(k).is_some() {
+                                let v = add(&c[k], &second_cov[k]);
+                                c.insert(k.to_string(), v);
+                            }
+                        }
+                        let ex = c.get("exhaustive").and_then(|x| x.as_bool()).unwrap_or(false) && second_cov.get("exhaustive").and_then(|x| x.as_bool()).unwrap_or(false);
+                        c.insert("exhaustive".to_string(), json!(ex));
+                        let mut parts = c.get("parts").cloned().unwrap_or(json!({}));
+                        parts[part.as_str()] = second_cov;
+                        c.insert("parts".to_string(), parts);
+                    }
+                    first["wall_s"] = json!(first["wall_s"].as_f64().unwrap_or(0.0) + wall);
+                    first["violations"] = add(&first["violations"], &ev["violations"]);
+                    if let (Some(a), Some(b)) = (first.get("assumptions").and_then(|x| x.as_array()).cloned(), ev.get("assumptions").and_then(|x| x.as_array())) {
+                        let mut a = a;
+                        a.extend(b.iter().cloned());
+                        first["assumptions"] = Value::Array(a);
+                    }
+                    first
+                }
+                _ => ev,
+            };
             std::fs::write(&p, serde_json::to_string_pretty(&ev).unwrap() + "\n").unwrap_or_else(|e| machinery_error(&format!("cannot write evidence: {e}")));
         }
 
